@@ -287,6 +287,25 @@ def main(tier):
             if bad:
                 bad['kind'] = 'value-fits-but-broken'
                 run.violation(bad)
+        # sequences of ints just below the length at which the printers force a break themselves (the shortest
+        # conceivable output of more than 50 elements exceeds 150 columns): here the one-line text is known
+        # without the package - it is repr(value)
+        import printercheck as PC
+        nseq = 0
+        for n in (1, 2, 10, 48, 49, 50):
+            for v in (list(range(n)), tuple([7] * n) if n > 1 else (7,), [list(range(n)), 1], {'k': list(range(n))},
+                      set(range(n)) if 1 < n else {1}, [[0] * n, [1] * n]):
+                one = repr(v)
+                L = len(one)
+                for w in (L, L + 1, 2 * L, BIG):
+                    nseq += 1
+                    text, _ws = PC.impl_pformat(v, dict(width=w, ribbon_width=w))
+                    if text != one and len(run.violations) < 9:
+                        run.violation({'kind': 'sequence-fits-but-broken', 'n': n, 'width': w, 'value': one[:120],
+                                       'detail': 'a value of %d-element int sequences whose one-line text (repr) has %d columns is '
+                                                 'not printed on one line at width = ribbon = %d' % (n, L, w), 'impl': text[:300]})
+        run.count(nseq)
+        run.coverage['int_sequence_cases'] = nseq
         run.count(nval)
         run.coverage['value_histories'] = nval
         run.coverage['probe_cases'] = nprobe
